@@ -112,3 +112,85 @@ Section WholeLog.
     - rewrite firstn_firstn. f_equal. lia.
   Qed.
 End WholeLog.
+
+Section Registry.
+  Context {I W : Type} (id_eqb : I -> I -> bool) (w_eqb : W -> W -> bool).
+  Context (id_eqb_spec : forall a b, id_eqb a b = true <-> a = b).
+  Context (w_eqb_spec : forall a b, w_eqb a b = true <-> a = b).
+
+  Lemma id_eqb_false a b : id_eqb a b = false <-> a <> b.
+  Proof.
+    split; intros H.
+    - intros E. apply id_eqb_spec in E. congruence.
+    - destruct (id_eqb a b) eqn:E; [apply id_eqb_spec in E; contradiction | reflexivity].
+  Qed.
+
+  Lemma reg_get_set (r : list (I * list W)) t ws t' :
+    reg_get id_eqb (reg_set id_eqb r t ws) t' = if id_eqb t t' then Some ws else reg_get id_eqb r t'.
+  Proof.
+    induction r as [|[k v] r IH]; cbn.
+    - destruct (id_eqb t t'); reflexivity.
+    - destruct (id_eqb k t) eqn:Ekt; cbn.
+      + apply id_eqb_spec in Ekt. subst k. destruct (id_eqb t t'); reflexivity.
+      + destruct (id_eqb k t') eqn:Ekt'; [|exact IH].
+        apply id_eqb_spec in Ekt'. subst k. rewrite (proj2 (id_eqb_false t t')); [reflexivity|].
+        apply id_eqb_false in Ekt. congruence.
+  Qed.
+
+  Lemma reg_get_del (r : list (I * list W)) t t' :
+    reg_get id_eqb (reg_del id_eqb r t) t' = if id_eqb t t' then None else reg_get id_eqb r t'.
+  Proof.
+    induction r as [|[k v] r IH]; cbn.
+    - destruct (id_eqb t t'); reflexivity.
+    - destruct (id_eqb k t) eqn:Ekt; cbn.
+      + apply id_eqb_spec in Ekt. subst k. rewrite IH. destruct (id_eqb t t'); reflexivity.
+      + destruct (id_eqb k t') eqn:Ekt'; [|exact IH].
+        apply id_eqb_spec in Ekt'. subst k. rewrite (proj2 (id_eqb_false t t')); [reflexivity|].
+        apply id_eqb_false in Ekt. congruence.
+  Qed.
+
+  Lemma in_remove_watcher w ws x : In x (remove_watcher w_eqb w ws) <-> In x ws /\ x <> w.
+  Proof.
+    unfold remove_watcher. rewrite filter_In, negb_true_iff. split; intros [H1 H2]; split; try exact H1.
+    - intros E. apply w_eqb_spec in E. congruence.
+    - destruct (w_eqb x w) eqn:E; [apply w_eqb_spec in E; contradiction | reflexivity].
+  Qed.
+
+  (* a watcher that leaves takes only itself out: every other watcher, of the same transaction or of
+     another one, stays registered (and nobody gets registered by it) *)
+  Theorem unregister_others_unaffected (r : list (I * list W)) t2 w2 t1 w1 :
+    w1 <> w2 ->
+    (In w1 (watchers_of id_eqb (unregister id_eqb w_eqb r t2 w2) t1) <-> In w1 (watchers_of id_eqb r t1)).
+  Proof.
+    intros Hne. unfold unregister, watchers_of.
+    destruct (reg_get id_eqb r t2) as [ws|] eqn:Eg; [|reflexivity].
+    destruct (remove_watcher w_eqb w2 ws) as [|y ws'] eqn:Er.
+    - rewrite reg_get_del. destruct (id_eqb t2 t1) eqn:E; [|reflexivity].
+      apply id_eqb_spec in E. subst t1. rewrite Eg. split; [intros []|].
+      intros Hin. assert (H : In w1 (remove_watcher w_eqb w2 ws)) by (apply in_remove_watcher; split; assumption).
+      rewrite Er in H. exact H.
+    - rewrite reg_get_set. destruct (id_eqb t2 t1) eqn:E; [|reflexivity].
+      apply id_eqb_spec in E. subst t1. rewrite Eg, <- Er. rewrite in_remove_watcher. tauto.
+  Qed.
+
+  Theorem unregister_removes (r : list (I * list W)) t w : ~ In w (watchers_of id_eqb (unregister id_eqb w_eqb r t w) t).
+  Proof.
+    unfold unregister, watchers_of.
+    destruct (reg_get id_eqb r t) as [ws|] eqn:Eg; [|rewrite Eg; intros []].
+    destruct (remove_watcher w_eqb w ws) as [|y ws'] eqn:Er.
+    - rewrite reg_get_del, (proj2 (id_eqb_spec t t) eq_refl). intros [].
+    - rewrite reg_get_set, (proj2 (id_eqb_spec t t) eq_refl), <- Er. rewrite in_remove_watcher. tauto.
+  Qed.
+
+  Theorem register_adds (r : list (I * list W)) t w t' w' :
+    In w' (watchers_of id_eqb (register id_eqb r t w) t') <->
+    (t = t' /\ w' = w) \/ In w' (watchers_of id_eqb r t').
+  Proof.
+    unfold register, watchers_of at 1. rewrite reg_get_set.
+    destruct (id_eqb t t') eqn:E.
+    - apply id_eqb_spec in E. subst t'. cbn. split.
+      + intros [<- | H]; [left; split; reflexivity | right; exact H].
+      + intros [[_ ->] | H]; [left; reflexivity | right; exact H].
+    - apply id_eqb_false in E. split; [intros H; right; exact H | intros [[H _] | H]; [contradiction | exact H]].
+  Qed.
+End Registry.
